@@ -8,7 +8,9 @@
 //
 //	reset <inlineLimit>                                            => ok
 //	grpc <dir> <name> <inline|chunks|nofs|bigfs> <chunk> <body>    => <entry>      (FilerServer.CreateEntry, the gRPC handler)
-//	put|post|postd|postraw|putnet <dir> <name> <append> <chunk> <failAt> <body> => <status> <entry>
+//	put|post|postd|postraw|putnet <dir> <name> <append> <chunk> <failAt> <body> => <status> gc=<data,..> <entry>
+//	   (gc = the chunks the request uploaded itself AND handed to a chunk-deletion sink, as their sorted data; - if none:
+//	   file ids assigned during the request are told by the stand-in's key counter, deletions by hook H5)
 //	   (putnet = put over a real loopback connection; a failing body is a connection the client closes early)
 //	pub <bytes> <failAt>                                           => same | differ:..   (public PostHandler ?maxMB=1 vs hook path at 1<<20)
 //
@@ -36,6 +38,7 @@ import (
 	"sort"
 	"strconv"
 	"strings"
+	"sync"
 	"time"
 
 	"google.golang.org/grpc"
@@ -44,6 +47,7 @@ import (
 	_ "github.com/chrislusf/seaweedfs/weed/filer/leveldb2"
 	"github.com/chrislusf/seaweedfs/weed/pb/filer_pb"
 	weed_server "github.com/chrislusf/seaweedfs/weed/server"
+	"github.com/chrislusf/seaweedfs/weed/storage/needle"
 	"github.com/chrislusf/seaweedfs/weed/util"
 	"github.com/chrislusf/seaweedfs/weed/util/log_buffer"
 
@@ -63,6 +67,50 @@ var (
 	opNo  int            // operations since reset
 	gens  map[string]int // fid -> op number that uploaded it
 )
+
+// file ids handed to a chunk-deletion sink (hook H5) since the last delTake
+var (
+	delMu  sync.Mutex
+	delIds []string
+)
+
+func delObserver(kind string, ids []string) bool {
+	delMu.Lock()
+	delIds = append(delIds, ids...)
+	delMu.Unlock()
+	return true // chunk garbage collection itself is not under test (C20): keep the deletion queue off the network
+}
+
+func delTake() []string {
+	delMu.Lock()
+	defer delMu.Unlock()
+	ids := delIds
+	delIds = nil
+	return ids
+}
+
+// gcToken: of the file ids handed to deletion since the last delTake, those the stand-in assigned after key
+// `before` (= uploaded by the request that just ran), as their sorted chunk data
+func gcToken(before uint64) string {
+	var xs []string
+	for _, id := range delTake() {
+		f, err := needle.ParseFileIdFromString(id)
+		if err != nil || uint64(f.Key) <= before {
+			continue
+		}
+		b, ok := vol.Get(id)
+		if !ok {
+			xs = append(xs, "missing:"+id)
+			continue
+		}
+		xs = append(xs, hx.Hex(b))
+	}
+	if len(xs) == 0 {
+		return "gc=-"
+	}
+	sort.Strings(xs)
+	return "gc=" + strings.Join(xs, ",")
+}
 
 func lookup(fileId string) ([]string, error) {
 	return []string{"http://" + vol.Addr + "/" + fileId}, nil
@@ -295,13 +343,16 @@ func buildRequest(method, dir, name string, isAppend bool, failAt int, body []by
 func opWrite(method, dir, name string, isAppend bool, chunk int, failAt int, body []byte) {
 	opNo++
 	tr.Op(method, []string{dir, name, hx.B(isAppend), strconv.Itoa(chunk), strconv.Itoa(failAt), hx.Hex(body)}, hx.Guard(func() []string {
+		before := vol.Next()
+		delTake()
 		if method == "putnet" {
-			return append([]string{strconv.Itoa(putOverNet(realPath(dir, name), isAppend, chunk, failAt, body))}, dump(realPath(dir, name))...)
+			code := putOverNet(realPath(dir, name), isAppend, chunk, failAt, body)
+			return append([]string{strconv.Itoa(code), gcToken(before)}, dump(realPath(dir, name))...)
 		}
 		r, path := buildRequest(method, dir, name, isAppend, failAt, body)
 		w := httptest.NewRecorder()
 		fsrv.VerifPostHandlerChunkBytes(w, r, r.ContentLength, int32(chunk))
-		return append([]string{strconv.Itoa(w.Code)}, dump(path)...)
+		return append([]string{strconv.Itoa(w.Code), gcToken(before)}, dump(path)...)
 	}))
 }
 
@@ -392,17 +443,23 @@ func opPub(n int, failAt int) {
 		body := pattern(n, byte(n))
 		r1, p1 := buildRequest("put", "d", "pubhook", false, failAt, body)
 		w1 := httptest.NewRecorder()
+		before := vol.Next()
+		delTake()
 		fsrv.VerifPostHandlerChunkBytes(w1, r1, r1.ContentLength, 1<<20)
+		g1 := gcToken(before)
 		r2, p2 := buildRequest("put", "d", "pubreal", false, failAt, body)
 		r2.URL.RawQuery = "maxMB=1"
 		r2.RequestURI += "?maxMB=1"
 		w2 := httptest.NewRecorder()
+		before = vol.Next()
 		fsrv.PostHandler(w2, r2, r2.ContentLength)
+		g2 := gcToken(before)
 		s1, s2 := summary(p1), summary(p2)
-		if w1.Code == w2.Code && s1 == s2 && s1 != "none" {
+		// an error-free body must be stored by both paths; a failing one is treated alike (status, entry, deletions)
+		if w1.Code == w2.Code && s1 == s2 && g1 == g2 && (s1 != "none" || failAt >= 0) {
 			return []string{"same"}
 		}
-		return []string{fmt.Sprintf("differ:%d/%d:%s/%s", w1.Code, w2.Code, s1, s2)}
+		return []string{fmt.Sprintf("differ:%d/%d:%s/%s:%x/%x", w1.Code, w2.Code, s1, s2, sha1.Sum([]byte(g1)), sha1.Sum([]byte(g2)))}
 	}))
 }
 
@@ -512,6 +569,9 @@ func (g *gen) oneCase() {
 			if g.r.Chance(1, 5) {
 				failAt = g.failAt(n, chunk)
 			}
+			if m == "putnet" && n == 0 {
+				failAt = -1 // Content-Length 0: there is nothing a client could cut
+			}
 			body := g.body(n)
 			if failAt >= 0 && m != "put" {
 				// mime/multipart holds back a trailing "\r" (possible start of the boundary) when the stream breaks:
@@ -528,6 +588,43 @@ func (g *gen) oneCase() {
 			}
 			opWrite(m, dir, name, isAppend, c, failAt, body)
 		}
+	}
+}
+
+// failingCase: a file, then requests whose bodies fail — over every transport, as overwrite and as append, after
+// 0 / 1 / several uploaded chunks — each followed by an error-free request on the same name (what is stored must
+// be what was there before the failure); variant 2/3 put the failure behind a first read that is taken as the
+// inline content (inline limit above the chunk size, or below /etc)
+func (g *gen) failingCase(variant int) {
+	chunk := 4 + g.r.Intn(9)
+	limit := int64(0)
+	dir := "d"
+	switch variant {
+	case 2:
+		limit = int64(chunk + 1 + g.r.Intn(8))
+	case 3:
+		dir = "etc"
+	}
+	opReset(limit)
+	clean := func(n int) []byte {
+		b := g.r.Bytes(n)
+		for i := range b {
+			if b[i] == '\r' || b[i] == '\n' {
+				b[i] = 'x'
+			}
+		}
+		return b
+	}
+	for i, m := range []string{"put", "putnet", "post", "postd"} {
+		name := fmt.Sprintf("f%d", i%3)
+		k := 3 + g.r.Intn(2)
+		n := k*chunk + 1 + g.r.Intn(chunk-1)
+		opWrite("put", dir, name, false, chunk, -1, g.body(chunk+1+g.r.Intn(2*chunk)))
+		opWrite(m, dir, name, false, chunk, g.r.Intn(chunk), clean(n))                  // fails inside the first read
+		opWrite(m, dir, name, false, chunk, chunk+g.r.Intn(chunk), clean(n))            // one chunk uploaded
+		opWrite(m, dir, name, false, chunk, (k-1)*chunk+g.r.Intn(chunk+1), clean(n))    // several chunks uploaded
+		opWrite(m, dir, name, true, chunk, chunk*(1+g.r.Intn(k))+g.r.Intn(2), clean(n)) // as an append
+		opWrite(m, dir, name, true, chunk, -1, g.body(1+g.r.Intn(2*chunk)))
 	}
 }
 
@@ -563,8 +660,7 @@ func main() {
 		panic(err)
 	}
 	fl.SetStore(inner)
-	// chunk garbage collection is not under test (C20): keep the deletion queue off the network
-	filer.VerifChunkDeleteObserver = func(kind string, ids []string) bool { return true }
+	filer.VerifChunkDeleteObserver = delObserver
 	go fl.MasterClient.KeepConnectedToMaster()
 	fl.MasterClient.WaitUntilConnected()
 	opt = &weed_server.FilerOption{MaxMB: 4}
@@ -586,5 +682,9 @@ func main() {
 	g := &gen{r: hx.NewRng(a.Seed)}
 	for i := 0; i < a.N(120); i++ {
 		g.oneCase()
+	}
+	// after the random cases (their stream stays what it was): failing bodies in every position a request can be in
+	for i := 0; i < 4; i++ {
+		g.failingCase(i)
 	}
 }
